@@ -116,7 +116,21 @@ fn build(label: &str, enc: [Enc; 3], vault0: u64) -> Wd {
     over.push(O::Base(Op::Update { pos: 0 }));
     over.push(O::Base(Op::Clock(86_400)));
     over.push(O::Base(Op::Update { pos: 1 }));
+    // wrapped-negative checkpoint: tick 128 is initialised (by P2) before any reward accrued, tick -128 (by P0) after some did and
+    // while the price is ABOVE P0's range, so P0's reward growth inside starts at 0 - G1 (mod 2^128); the price then enters the range
+    // and the growth inside rises through zero with the next accrual — an update across that point must still credit the interval
+    let late_lower = vec![
+        O::InitReward { index: 0, v2: false },
+        O::Base(Op::Inc { pos: 2, liq: stdworlds::BIG, v2: false }),
+        O::SetEmissions { index: 0, rate: RATE_1, v2: true },
+        O::Base(Op::Swap { a_to_b: false, exact_in: true, amount: u64::MAX >> 8, lim: Lim::NextTick, v2: true }), // onto tick 128: P2 in range
+        O::Base(Op::Clock(100)),
+        O::Base(Op::Inc { pos: 0, liq: stdworlds::BIG, v2: true }),
+        O::Base(Op::Inc { pos: 1, liq: stdworlds::BIG / 3, v2: false }),
+        O::Base(Op::Swap { a_to_b: true, exact_in: true, amount: 1_000_000, lim: Lim::None, v2: false }), // back below 128: P0, P1 in range
+    ];
     let prefixes = vec![
+        ("late-lower-tick".to_string(), l.clone(), late_lower),
         ("funded-no-reward".to_string(), l.clone(), fund),
         ("emitting".to_string(), l.clone(), emitting),
         ("two-rewards".to_string(), l.clone(), two),
